@@ -515,6 +515,14 @@ struct Runner
         }
         c.probe("timing_durations_checked_exactly");
       }
+      // the aggregate the library offers must equal (sum of invocation records) - (sum of callback records)
+      for (int s = 0; s < nsbx && !c.stop; s++) {
+        int64_t want = 0;
+        for (auto& rec : sb[(size_t)s]->process_and_get_transition_times())
+          want += rec.invoke == rlbox::rlbox_transition::INVOKE ? rec.time : -rec.time;
+        if (sb[(size_t)s]->get_total_ns_time_in_sandbox_and_transitions() != want)
+          c.violate("C19", "timing_total_inconsistent_with_records@tree", "sandbox #%d", s);
+      }
       c.st.sim_ns += (uint64_t)g_clock_now;
     }
 #endif
